@@ -11,7 +11,7 @@ use std::cmp::Ordering;
 use rlib_num_traits::ZeroOne;
 use rlib_show::{Show, ShowSettings};
 
-#[derive(Clone, Copy, PartialEq, Eq)]
+#[derive(Clone, Copy)]
 #[repr(align(16))]
 #[allow(non_camel_case_types)]
 pub struct f80([u8; 10]);
@@ -111,6 +111,13 @@ impl f80 {
             }
         }
         (e & 1) > 0
+    }
+}
+
+// numeric equality as for f64: -0 == +0 and NaN != NaN (a bytewise comparison got both wrong)
+impl PartialEq for f80 {
+    fn eq(&self, rhs: &f80) -> bool {
+        !self.unordered(rhs) && !self.lt(rhs) && !rhs.lt(self)
     }
 }
 
